@@ -101,6 +101,11 @@ def step (_ : Unit) (line : String) : Unit × String :=
       else if !spanOk (tablesOf arch) (namesOf arch) (letterOf (namesOf arch) id) then "BAD unsorted-span"
       else "BAD name-round-trip"
     | _, _ => "bad-op"
+  | ["mon_dbname", h] =>
+    -- the printed name of an x86 instruction is an instruction name of the ISA database
+    match bytesOf? h with
+    | some s => if Gen.X86DBAliases.dbNames.contains s then "good" else "BAD printed-name-not-in-database"
+    | none => "bad-op"
   | ["mon_lookup", arch, h, r] =>
     match bytesOf? h, r.toNat? with
     | some s, some r =>
